@@ -120,7 +120,7 @@ AxisClauses ==        \* one smoother called along one axis: sx, sy, sxy = S(x+y
      constant_preserved |-> \A p \in 1..Len(Rec.sc) : Rec.sc[p] = Rec.c * D,
      along_axis_only    |-> \A base \in LineBases(fs, a) :
                                Line(fs, sx, a, base) = SmoothAxis(k, <<fs[a]>>, Line(fs, x, a, base), 1) ]
-GetSmootherClauses == [ get_smoother_acts |-> Ascending(Rec.dEsign) => GetSmootherActsOK(Rec.hasE, Rec.ne, Rec.smear, Rec.wide, Rec.got) ]
+GetSmootherClauses == [ get_smoother_acts |-> AscendingGrid(Rec.dEsign) => GetSmootherActsOK(Rec.hasE, Rec.ne, Rec.smear, Rec.wide, Rec.got) ]
 
 Clauses == CASE Rec.fn = "alg" -> AlgClauses
              [] Rec.fn = "sym" -> SymClauses
